@@ -182,5 +182,8 @@ def make_data(rng, kind, lead, K, N, D, cls='gauss', dtype=None, E=None, spread=
     e = means[lab] + 0.5 * rng.standard_normal((F, N, E))
     if offset:
         e = e + offset * float(np.std(e)) * oracles.unit(rng.standard_normal((1, 1, E)))
-    y = gen.hostile(rng, y, cls)
+    if cls == 'outlier':
+        e = gen.hostile(rng, e, 'outlier', real=True)      # far embeddings; the spatial stream stays benign
+    else:
+        y = gen.hostile(rng, y, cls)
     return dict(y=y, e=e.astype(np.float32 if dt == np.complex64 else np.float64), lab=lab)
